@@ -1,14 +1,14 @@
 CONSTANTS
- Producers = {"p1","p2"}
- K = 2
+ Producers = {"p1","p2","p3"}
+ K = 3
  Shapes <- ShOk12
- MaxFaults = 0
+ MaxFaults = 1
  MaxCrashes = 0
  MaxIdxLoss = 0
- SyncFlush = TRUE
- InlineAt = 0
+ SyncFlush = FALSE
+ InlineAt = 2
  Interval = 2
- MBs = {0,9,80,200}
+ MBs = {80}
  FixRestore = TRUE
  FixPublish = TRUE
  FixMonotone = TRUE
@@ -25,6 +25,5 @@ CONSTANTS
  DevTolerateLostIdx = FALSE
 INIT Init
 NEXT Next
-VIEW View
 CHECK_DEADLOCK FALSE
-INVARIANTS C01_AckedDurable C02_Unique C02_Monotone C02_NoGap C02_BaseIsStored C05_Monotone C05_NotAhead C06_NoHide C06_NoReuse C03_FetchExact C04_Progress C06_Readable
+INVARIANTS EmitSched C02_Unique C02_Monotone C02_BaseIsStored C05_Monotone C05_NotAhead
